@@ -691,6 +691,8 @@ package parser
 //@ func parseMovementValue
 //@   include ParseFrame
 //@   ensures [C12,C14:list-end] (result1 == nil && allowMultiple) ==> p.curToken.Type == closingToken
+// C14: a multiplier is refused only when it is not a number in 1..9999 (every number in that range is expanded)
+//@   scoped [C14:mul-range] (result1 != nil && err == nil) ==> (num <= 0 || num > 9999)
 //@   requires p != nil
 //@   ensures [C20:stack-balanced] result1 == nil ==> (SameStack(p.breakStack, old(p.breakStack)) && SameStack(p.continueStack, old(p.continueStack)))
 //@   ensures [C18:located] result1 != nil ==> ErrLoc(result1)
@@ -737,6 +739,11 @@ package parser
 //@   ensures [C20:stack-balanced] result1 == nil ==> (SameStack(p.breakStack, old(p.breakStack)) && SameStack(p.continueStack, old(p.continueStack)))
 //@   ensures [C18:located] result1 != nil ==> ErrLoc(result1)
 //@   loopinv [C20:stack-balanced-inv] SameStack(p.breakStack, old(p.breakStack)) && SameStack(p.continueStack, old(p.continueStack))
+// C12: every case that is written is recorded under its label with exactly the items parsed for it (an empty list is
+// a case too: it selects nothing, it does not fall back to '_'); the cases recorded before stay as they are
+//@   loop 1
+//@     transition [C12:case-kept] indom(listCases, prev(p.curToken.Literal)) && listCases[prev(p.curToken.Literal)] == lastresult(ListParserFn, 0)
+//@        && (forall k string :: {indom(listCases, k)} k != prev(p.curToken.Literal) ==> (indom(listCases, k) == prev(indom(listCases, k)) && listCases[k] == prev(listCases[k])))
 //@ end
 
 //@ func (p *Parser) parseMartStatement
